@@ -120,6 +120,15 @@ struct St
   std::atomic<uint64_t> ioTid{0};
   std::mutex m;
   std::map<uint64_t, std::string> data;
+  // reconnect-on-shutdown handler: an onClose whose reason is ShuttingDown (the drain failing a leftover
+  // Connect) connects again from inside the callback. Bounded per run of the engine.
+  std::atomic<bool> reconnect{false};
+  std::atomic<int> reconnects{0};
+  std::atomic<uint64_t> gen{0};             // run number of the engine (start() count)
+  std::atomic<uint64_t> viaLid{0};
+  std::atomic<uint64_t> reconAccepted{0}, reconRefused{0}, ghostEvents{0};
+  std::map<uint64_t, uint64_t> reconIds;    // sid returned ok by a reconnect -> run in which it was issued (guarded by m)
+  std::set<uint64_t> terminalSeen;          // sids that got an onConnect or onClose (guarded by m)
   // re-entry: public operations called from INSIDE callbacks while teardown is under way
   std::atomic<bool> reentry{false};
   std::atomic<bool> tdActive{false};
@@ -136,6 +145,15 @@ struct St
 struct FreedToken { std::shared_ptr<std::atomic<bool>> flag; ~FreedToken() { flag->store(true); } };
 
 static uint64_t tidNum() { return uint64_t(syscall(SYS_gettid)); }
+// terminal event bookkeeping for ids handed out by the reconnect handler; an event for an id that was
+// issued in an EARLIER run of the engine is a ghost (a command that survived stop() and ran after start())
+static void noteTerminal(const std::shared_ptr<St> &st, uint64_t sid)
+{
+  std::lock_guard<std::mutex> g(st->m);
+  st->terminalSeen.insert(sid);
+  auto it = st->reconIds.find(sid);
+  if (it != st->reconIds.end() && it->second < st->gen.load()) st->ghostEvents++;
+}
 
 static void cbEnter(const std::shared_ptr<St> &st, Cb k)
 {
@@ -341,7 +359,7 @@ static bool runIter(uint64_t seed, uint64_t idx, int onlyTd, int onlyProto)
   std::shared_ptr<Transport> t = makeTransport(udp, cfg, st);
   st->raw = t.get();
   t->onAccept([st, tok](SessionId, const TransportAddress &) { cbEnter(st, CbAccept); });
-  t->onConnect([st, tok](SessionId, const TransportAddress &) { cbEnter(st, CbConnect); });
+  t->onConnect([st, tok](SessionId sid, const TransportAddress &) { cbEnter(st, CbConnect); noteTerminal(st, sid); });
   t->onError([st, tok](TransportError, const std::string &) { cbEnter(st, CbError); });
   t->onData([st, tok](SessionId sid, iora::core::BufferView d, std::chrono::steady_clock::time_point) {
     cbEnter(st, CbData);
@@ -382,9 +400,23 @@ static bool runIter(uint64_t seed, uint64_t idx, int onlyTd, int onlyProto)
       catch (const std::logic_error &) { st->stopThrew = true; }
     }
   });
-  t->onClose([st, tok](SessionId sid, const TransportErrorInfo &) {
+  t->onClose([st, tok](SessionId sid, const TransportErrorInfo &why) {
     cbEnter(st, CbClose);
+    noteTerminal(st, sid);
     { uint64_t n = vf::nowNs(); std::lock_guard<std::mutex> g(st->m); st->closeNs.emplace(sid, n); }
+    if (why.code == TransportError::ShuttingDown && st->reconnect.load() && !tlsInFlush && st->reconnects.fetch_add(1) < 8)
+    {
+      // "reconnect when the transport says it is shutting down" — from inside the callback
+      uint64_t lid = st->viaLid.load();
+      bool via = lid != 0 && (st->reconnects.load() & 1);
+      try
+      {
+        auto cr = via ? st->raw->connectViaListener(lid, "127.0.0.1", uint16_t(st->rePort.load())) : st->raw->connect("127.0.0.1", uint16_t(st->rePort.load()), TlsMode::None);
+        if (cr.isOk()) { st->reconAccepted++; std::lock_guard<std::mutex> g(st->m); st->reconIds.emplace(cr.value(), st->gen.load()); }
+        else st->reconRefused++;
+      }
+      catch (const std::exception &) { st->reconRefused++; }
+    }
     if (uint32_t us = st->slowCloseUs.load()) vf::sleepMs(double(us) / 1000.0);
     reenter(st, RcClose);
     if (st->trigger.load() == 2 && st->triggerArmed.load() && (st->closeOnTrigger.load() == 0 || st->closeOnTrigger.load() == sid) && !st->triggered.exchange(true)) dropHolder(st);
@@ -399,6 +431,8 @@ static bool runIter(uint64_t seed, uint64_t idx, int onlyTd, int onlyProto)
   for (int cyc = 0; cyc < cycles; cyc++)
   {
     st->fence = false;
+    st->gen++;
+    st->reconnects = 0;
     st->holdFlush = true;
     if (!t->start().isOk()) { O.viol("C05:start-failed:" + tdp, cyc ? "start() after a stop() failed" : "start() failed", desc); iterOk = false; break; }
     if (cyc) O.obs("restarts_after_stop");
@@ -460,10 +494,12 @@ static bool runIter(uint64_t seed, uint64_t idx, int onlyTd, int onlyProto)
                     "a datagram sent by a raw peer to the listener of the (re)started UDP transport was not delivered within 5 s", desc);
       }
     }
+    st->rePort = udp ? uecho->port() : echo->port();
+    st->viaLid = udp ? curLid.load() : 0;
+    st->reconnect = !selfDestruct; // the handler needs the Transport object, which a self-destructing callback has dropped
     if (reentry)
     {
       st->reSid = spare[2];
-      st->rePort = udp ? uecho->port() : echo->port();
       for (size_t k = 1; k < spare.size(); k++)
       {
         t->observe(spare[k], [st](SessionId, const TransportErrorInfo &) { if (st->fence.load()) st->fenceViol[CbClose]++; reenter(st, RcObserver); });
@@ -594,7 +630,7 @@ static bool runIter(uint64_t seed, uint64_t idx, int onlyTd, int onlyProto)
       w->th = std::thread([&, w, own, s0]() mutable {
         vf::Rng r(s0);
         int after = int(r.range(0, 6));
-        int listens = 0, connects = 0, vias = 0;
+        int listens = 0, connects = 0, connectsAfter = 0, vias = 0;
         for (;;)
         {
           // destroying kinds: co-owners must let go once teardown began (one of these releases is the
@@ -607,7 +643,7 @@ static bool runIter(uint64_t seed, uint64_t idx, int onlyTd, int onlyProto)
           if (k >= 5 && k < 7 && ++listens > 24 && !begun) k = 9; // bounded number of listening sockets
           // bounded number of connects: every one of them costs one (possibly slow) user onClose inside
           // stop(); an unbounded stream of them makes stop() long by the harness's own doing
-          if (k == 7 && ++connects > 24) k = 9;
+          if (k == 7 && ((!begun && ++connects > 24) || (begun && ++connectsAfter > 40))) k = 9; // a reserve for the drain: leftover Connects must exist
           w->t0 = vf::nowNs();
           try
           {
@@ -965,6 +1001,21 @@ static bool runIter(uint64_t seed, uint64_t idx, int onlyTd, int onlyProto)
       O.viol("C05:fence:onData-entered-by-setReadMode-flush-after-stop-returned:" + tdp + ":one-in-flight-chunk-per-flusher",
              "a setReadMode(Sync->Async) flush that had already taken one chunk out of the sync buffer (closed-check passed, lock dropped) when stop()'s drain reported the close entered onData with that chunk after stop() had returned (" +
                std::to_string(n) + " flush calls, at most one entry each)", desc);
+    // reconnect handler: every ok(sid) it got must have had its terminal event by now (stop()/the destroying
+    // release has returned); events for ids of an earlier run are ghosts
+    {
+      std::lock_guard<std::mutex> g(st->m);
+      uint64_t cur = st->gen.load(), missing = 0;
+      for (auto &kv : st->reconIds) if (kv.second == cur && !st->terminalSeen.count(kv.first)) missing++;
+      if (missing)
+        O.viol("C05:reconnect-from-ShuttingDown-onClose:ok-without-terminal-event:" + tdp,
+               "connect()/connectViaListener issued inside an onClose(ShuttingDown) returned ok(sid) but the id had neither onConnect nor onClose when " + std::string(destroying ? "the destroying release" : "stop()") + " had returned (" + std::to_string(missing) + " ids)", desc);
+    }
+    if (uint64_t n = st->ghostEvents.exchange(0))
+      O.viol("C05:ghost-event-after-restart:id-of-a-previous-run:" + tdp,
+             "an onConnect/onClose for a session id handed out in an EARLIER run of the engine appeared after the next start() (" + std::to_string(n) + " events): a command survived stop() and was executed after the restart", desc);
+    O.obs("reconnect_from_ShuttingDown_onClose_accepted", st->reconAccepted.exchange(0));
+    O.obs("reconnect_from_ShuttingDown_onClose_refused", st->reconRefused.exchange(0));
     O.obs("fence_checks");
     if (!t) break; // destroyed in this cycle
   }
